@@ -192,6 +192,7 @@ Inductive op :=
 | ORecv (p : packet) (tape : list bool) (lie : Z)
 | OMsg (signer : string) (m : msg) (tape : list bool)
 | ODeposit (to denom : string) (amt : Z)
+| OSend (from to denom : string) (amt : Z)     (* a user's bank MsgSend *)
 | OQuery (q : query)
 | OBlockedOutside       (* a packet the middleware in front of the orbiter (blockibc) refused itself *)
 | OCallback             (* another IBC callback (acknowledgement, timeout): the embedded module's, differential only *)
@@ -204,6 +205,7 @@ Inductive out :=
 | OutRecv (r : recv_result)
 | OutMsg (class : nat) (trace : list (call * bool))      (* 0 ok, 1 refused, 2 panic *)
 | OutDeposit
+| OutSend (ok : bool)
 | OutQuery (a : res answer)
 | OutBlocked
 | OutAppPanic
@@ -222,6 +224,12 @@ Definition step (cfg : config) (e : env) (w : world) (o : op) : world * out :=
   | ORecv p tape lie => let r := recv_lie cfg e w p tape lie in (rr_world r, OutRecv r)
   | OMsg signer m tape => step_msg cfg w signer m tape
   | ODeposit to d a => ({| w_o := w_o w; w_l := apply_move (w_l w) (MMint to d a) |}, OutDeposit)
+  | OSend from to d a =>
+      (* x/bank MsgSend: refused towards an account the chain blocks (simapp/app.yaml
+         blocked_module_accounts_override, Gen/Constants.v) and beyond the sender's balance *)
+      if existsb (String.eqb to) blocked_addresses || negb (0 <? a) || (bal (w_l w) from d <? a)
+      then (w, OutSend false)
+      else ({| w_o := w_o w; w_l := apply_move (w_l w) (MSend from to d a) |}, OutSend true)
   | OQuery q => (w, OutQuery (run_query (w_o w) q))
   | OBlockedOutside => (w, OutBlocked)
   | OAppPanics => (w, OutAppPanic)
